@@ -61,6 +61,31 @@ pub fn tick(name: &'static str) {
     }
 }
 
+static KNOBS: std::sync::atomic::AtomicUsize = std::sync::atomic::AtomicUsize::new(0);
+
+/// Installs the function that answers [`knob`]; kept apart from [`Hooks`] so that a simulator can
+/// tune sizes without owning the scheduling points.
+pub fn set_knobs(f: fn(&'static str, usize) -> usize) {
+    KNOBS.store(f as usize, Ordering::SeqCst);
+}
+
+pub fn clear_knobs() {
+    KNOBS.store(0, Ordering::SeqCst);
+}
+
+/// A named tuning constant (buffer, window or capacity size): the simulator may answer another
+/// value than the built-in one; with no knob function installed the built-in value is used.
+#[inline]
+pub fn knob(name: &'static str, default: usize) -> usize {
+    let raw = KNOBS.load(Ordering::Acquire);
+    if raw == 0 {
+        return default;
+    }
+    // Safety: only ever set from a `fn(&'static str, usize) -> usize`.
+    let f: fn(&'static str, usize) -> usize = unsafe { std::mem::transmute(raw) };
+    f(name, default)
+}
+
 struct YieldOnce(bool);
 
 impl Future for YieldOnce {
